@@ -13,8 +13,8 @@ def knownDeviations : List (Name × String) := [
   (n!"common.LogsBloom", "view type definition differs from the specification schema")]
 
 /-- the per-row obligation: the row agrees with the schema, or disagrees exactly as recorded -/
-def rowOk (owners : Owners) (views : List ViewDef) (T : GoType) : Bool :=
-  match checkType owners views T with
+def rowOk (owners : Owners) (views : List ViewDef) (part : Part) (T : GoType) : Bool :=
+  match checkType owners views part T with
   | none => true
   | some r => knownDeviations.any fun d => d.1 == T.name && d.2 == r
 
